@@ -6,6 +6,7 @@ kernel contract requires this schema; it is an assumption on the pre-state (list
 ownership part (each array/list attribute is owned by its object) is baked into the heap model.
 """
 SCHEMA = {
+    "__families__": ["Compartment", "Characteristic", "Parameter", "Link", "Population", "Model"],
     "Variable": {"vals": "arr1", "t": "arr1", "dt": "real", "units": "str", "id": "opaque", "pop": "opaque"},
     "Compartment": {"outlinks": "list:Link", "inlinks": "list:Link", "_cached_outflow": "real"},
     "JunctionCompartment": {"duration_group": "str?"},
